@@ -112,6 +112,8 @@ def contracts_part(ctx):
     from pyvc.contract import REGISTRY
     from pyvc import run as prun
     cs = [c for c in REGISTRY.values() if c.__class__.__module__ == 'contracts.matrix']
+    for c in cs:
+        c._tier = ctx.tier
     prun.run_contracts(ctx, cs, 'contracts.matrix')
     ctx.assume('Matrix layout contracts (contracts/matrix.py): shapes enumerated (1x1 .. 3x3, 1x4, 4x1), element '
                'width / max_bits / value symbolic; WireVector slicing and as_wires through their own contracts (C06)')
